@@ -26,16 +26,17 @@ class StopPath(Exception):
 
 class U:
     """unknown value, named by access path / canonical expression text"""
-    __slots__ = ('path',)
+    __slots__ = ('path', '_h')
 
     def __init__(self, path):
         self.path = path
+        self._h = hash(('U', path))
 
     def __eq__(self, o):
         return isinstance(o, U) and o.path == self.path
 
     def __hash__(self):
-        return hash(('U', self.path))
+        return self._h
 
     def __repr__(self):
         return 'U(%s)' % self.path
@@ -134,6 +135,8 @@ class St:
 
 
 def _dedupe(states, limit=None):
+    if len(states) < 2:
+        return states
     seen, out = set(), []
     for s in states:
         try:
@@ -1109,6 +1112,7 @@ def rule_header(ctx, floor=28):
     if not (isinstance(words, tuple) and words and 'unsigned' in words[0] and all('unsigned' not in w for w in words[1:])):
         raise AnalysisError('PyrexTypes.CNumericType.sign_words no longer maps signed == 0 to "unsigned"')
     rels = sorted(table)
+    reported = set()
     for r1 in rels:
         for r2 in rels:
             if r1[0] != r2[0]:
@@ -1156,9 +1160,11 @@ def rule_header(ctx, floor=28):
                     done = set()
                     for h in hs:
                         for code, text in header_problems(h, r1, r2, table[r1][0], has_step, kind == 'unsigned'):
-                            if (code, text) in done:
+                            vkey = 'Nodes.ForFromStatNode.generate_execution_code:header[%s %s,%s]:%s' % (r1, r2, kind, code)
+                            if (code, text) in done or vkey in reported:
                                 continue
                             done.add((code, text))
+                            reported.add(vkey)
                             r.violate('Nodes.ForFromStatNode.generate_execution_code:header[%s %s,%s]:%s' % (r1, r2, kind, code), forfrom.module.rel, fn.lineno,
                                       'for relations `bound1 %s x %s bound2`%s and %s loop counter ForFromStatNode emits `%s`: %s — the compiled loop runs other iterations than '
                                       'range()/reversed(range()) in CPython' % (r1, r2, ' with a step' if has_step else '', 'an unsigned C integer' if kind == 'unsigned' else 'a signed/non-integer',
